@@ -1025,6 +1025,8 @@ def index_value(E, s, base, idx):
                     out.extend(E.raise_(s2, "KeyError", "key"))
             return out
         if isinstance(c, ObjCell):
+            if isinstance(c.cls, str) and c.cls in E.index_models:
+                return E.index_models[c.cls](E, s, base, idx)
             f = E_class_lookup(E, c.cls, "__getitem__")
             if f is not None:
                 return E.call_function(s, f, [base, idx], {})
@@ -1105,6 +1107,8 @@ def setitem_value(E, s, base, idx, v):
         if isinstance(c, IntSetCell):
             s.set_cell(base, IntSetCell(z3.Store(c.present, int_term(idx), True)))
             return [(s, FLOW_NEXT)]
+        if isinstance(c, ObjCell) and isinstance(c.cls, str) and c.cls in E.setitem_models:
+            return E.setitem_models[c.cls](E, s, base, idx, v)
     raise Unsupported(f"item assignment on {base!r}")
 
 
@@ -1165,19 +1169,40 @@ def comprehension(E, st, node, kind):
     out = []
     for s, v in res:
         if isinstance(v, tuple) and len(v) == 3 and v[0] == "__gen__":
-            out.append((s, SymComp(v[1], v[2])))
+            out.append((s, SymComp(v[1], v[2], E)))
         else:
             out.append((s, v))
     return out
 
 
 class SymComp(Sym):
-    """[elt for x in <symbolic sequence> if cond] kept symbolically; only `in`, truthiness
-    and all()/any() are defined on it (see builtins of the models)"""
-    __slots__ = ("gen", "seq")
+    """[elt for x in <symbolic sequence> if cond] kept symbolically; only `in` and
+    truthiness are defined on it: both are an existential over the index"""
+    __slots__ = ("gen", "seq", "engine")
 
-    def __init__(self, gen, seq):
-        self.gen, self.seq = gen, seq
+    def __init__(self, gen, seq, engine=None):
+        self.gen, self.seq, self.engine = gen, seq, engine
+
+    def exists(self, item, st):
+        from .loops import seq_length_and_elem
+        E = self.engine
+        node = self.gen.node
+        g = node.generators[0]
+        if not isinstance(g.target, ast.Name):
+            raise Unsupported("comprehension target")
+        n, elem = seq_length_and_elem(E, st, self.seq)
+        K = z3.Int(fresh_name("k"))
+        env = dict(self.gen.env)
+        env[g.target.id] = elem(K)
+        env["__noframe__"] = True
+        conds = [E.spec_formula(st, c, env) for c in g.ifs]
+        if item is not None:
+            env2 = dict(env)
+            env2["__item__"] = item
+            cmp_ = ast.Compare(left=node.elt, ops=[ast.Eq()], comparators=[ast.Name(id="__item__", ctx=ast.Load())])
+            ast.fix_missing_locations(ast.copy_location(cmp_, node.elt))
+            conds.append(E.spec_formula(st, cmp_, env2))
+        return z3.Exists([K], z3.And(K >= 0, K < n, *conds))
 
 
 def exec_with(E, stmt, st):
